@@ -67,6 +67,34 @@ def gen_c20():
     tests = re.findall(r'if\s*\(([^{};]*?)\)\s*v(?:\.back\(\)|\[value\])\.erase\(it\)', main, re.S)
     if len(tests) != 2 or not all('it!=std::end(' in norm(t) and '*it==id' in norm(t) for t in tests):
         raise E.ExtractError('erase(id,pf) main loop: expected two guarded tests, found ' + repr([norm(t) for t in tests]))
+    # FilterMap(TrieType, ItemsContainer): size test only, or size test + "every stored id addresses the container" (fixes/C20-4)
+    fsrc = E.strip_comments(E.read('include/AIToolbox/Factored/Utils/FilterMap.hpp'))
+    ctor_body, ctor_ln = body_of(fsrc, r'FilterMap\s*\(\s*TrieType\s+t\s*,\s*ItemsContainer\s+c\s*\)\s*:[^{]*\{', 'FilterMap(TrieType, ItemsContainer)')
+    cb = norm(ctor_body)
+    size_test = 'if(ids_.size()!=items_.size())throwstd::invalid_argument('
+    if size_test not in cb:
+        raise E.ExtractError('FilterMap(trie, items): size test not found')
+    rest = cb[cb.index(size_test):]
+    rest = rest[rest.index(';') + 1:]
+    if rest == '}':
+        ctor_range = False
+    elif re.fullmatch(r'for\((?:const)?auto(?:&)?id:ids_\.filter\(Factors\{\}\)\)if\(id>=items_\.size\(\)\)throwstd::invalid_argument\("[^"]*"\);\}', rest):
+        ctor_range = True
+    else:
+        raise E.ExtractError(f'FilterMap(trie, items): unrecognised statements after the size test: {rest[:200]!r}')
+    # FasterTrie::insert / erase: is an empty key rejected before `pf.first[0]` is read?
+    ftsrc = E.strip_comments(E.read('src/Factored/Utils/FasterTrie.cpp'))
+    ins_body, ins_ln = body_of(ftsrc, r'size_t\s+FasterTrie::insert\s*\(\s*PartialFactors\s+pf\s*\)\s*\{', 'FasterTrie::insert')
+    fer_body, _ = body_of(ftsrc, r'void\s+FasterTrie::erase\s*\(\s*const\s+size_t\s+id\s*,\s*const\s+PartialFactors\s*&\s*pf\s*\)\s*\{', 'FasterTrie::erase')
+    ib, eb = norm(ins_body), norm(fer_body)
+    ins_guard = re.match(r'\{if\((?:pf\.first\.empty\(\)|!pf\.first\.size\(\)|pf\.first\.size\(\)==0)\)throwstd::invalid_argument\("[^"]*"\);keys_\[pf\.first\[0\]\]', ib) is not None
+    ers_guard = re.match(r'\{if\((?:pf\.first\.empty\(\)|!pf\.first\.size\(\)|pf\.first\.size\(\)==0)\)return;auto&keys=keys_\[pf\.first\[0\]\]', eb) is not None
+    if not ins_guard and not ib.startswith('{keys_[pf.first[0]]'):
+        raise E.ExtractError('FasterTrie::insert: unrecognised statements before the bucket access: ' + ib[:120])
+    if not ers_guard and not eb.startswith('{auto&keys=keys_[pf.first[0]]'):
+        raise E.ExtractError('FasterTrie::erase: unrecognised statements before the bucket access: ' + eb[:120])
+    if ins_guard != ers_guard:
+        raise E.ExtractError('FasterTrie::insert and ::erase disagree on the empty-key guard')
     b = lambda x: 'true' if x else 'false'
     body = f'''/- GENERATED by tools/extract_c20.py from {REL} — do not edit. -/
 namespace AITB.Gen.C20
@@ -77,10 +105,162 @@ def sizeFirstBound : Bool := {b(size_first)}
 def allIdsFirstBound : Bool := {b(all_first)}
 /-- {REL}:{er_ln} `Trie::erase(id, pf)`: the tail loop checks `it != end` before `*it == id` -/
 def eraseTailGuard : Bool := {b(guard)}
+/-- include/AIToolbox/Factored/Utils/FilterMap.hpp:{ctor_ln} `FilterMap(TrieType, ItemsContainer)`: after the size test, rejects a trie
+    holding an id outside the container (true) / size test only (false) -/
+def ctorChecksIdRange : Bool := {b(ctor_range)}
+/-- src/Factored/Utils/FasterTrie.cpp:{ins_ln} `FasterTrie::insert` / `erase`: an empty key is rejected (insert throws `invalid_argument`, erase returns)
+    before `pf.first[0]` is read (true) / `pf.first[0]` is read unconditionally (false: out-of-bounds read on an empty key) -/
+def ftEmptyKeyGuard : Bool := {b(ins_guard)}
 
 end AITB.Gen.C20
 '''
     E.write_if_changed('C20', body)
 
 
-GENERATORS = [gen_c20]
+# ---------------------------------------------------------------------------------------------------------------
+# Pinned source sites (round 3).  Every statement of the anchored files that a definition in AITB.Model.Trie /
+# AITB.Model.IndexMap transcribes, as a literal of the comment-free, whitespace-free source text with the number of
+# times it must occur.  A site that is missing (or occurs a different number of times) means the model no longer
+# transcribes the code: ExtractError (broken tie; the harness still runs and looks for a failing input).
+# Deliberately NOT pinned, because the theorems do not depend on them: the position at which a new Filter is inserted
+# (`upper_bound` by size), the direction in which `erase(id)` scans a row, `reserve`, the shuffles of `reconstruct`.
+TRIE = 'src/Factored/Utils/Trie.cpp'
+FT = 'src/Factored/Utils/FasterTrie.cpp'
+FMAP = 'include/AIToolbox/Factored/Utils/FilterMap.hpp'
+IMAP = 'include/AIToolbox/Utils/IndexMap.hpp'
+CORE = 'src/Factored/Utils/Core.cpp'
+CELL = 'std::begin(ids_[key][value]),std::end(ids_[key][value]),std::begin(ids_[key].back()),std::end(ids_[key].back())'
+SITES = [
+    # ---- Trie: constructor, insert (T.mk?, walkKeys/walkTail/pushAt)
+    (TRIE, 'ctor_min_two_factors', 'if(F.size()<2)throwstd::invalid_argument(', 1),
+    (TRIE, 'ctor_lists_per_factor', 'ids_[i].resize(F[i]+1);', 1),
+    (TRIE, 'ctor_counter_zero', 'F(std::move(f)),counter_(0)', 1),
+    (TRIE, 'insert_unnamed_visit', 'if(factor<pf.first[i]){ids_[factor].back().push_back(counter_);continue;}', 1),
+    (TRIE, 'insert_named_visit', 'constsize_tvalue=pf.second[i++];ids_[factor][value].push_back(counter_);', 1),
+    (TRIE, 'insert_tail', 'for(;factor<F.size();++factor)ids_[factor].back().push_back(counter_);returncounter_++;', 1),
+    (TRIE, 'walk_loop_header', 'for(size_ti=0;i<pf.first.size();++factor){', 2),
+    # ---- erase(id) (eraseRowRev / eraseLB)
+    (TRIE, 'erase_id_lower_bound', 'autoit=std::lower_bound(std::begin(vv),std::end(vv),id);if(it!=std::end(vv)&&*it==id){vv.erase(it);break;}', 1),
+    # ---- erase(id, pf) (eraseAt / eraseTailAt); the tail guard itself is read by gen_c20
+    (TRIE, 'erase_pf_unnamed', 'autoit=std::lower_bound(std::begin(v.back()),std::end(v.back()),id);', 2),
+    (TRIE, 'erase_pf_named', 'autoit=std::lower_bound(std::begin(v[value]),std::end(v[value]),id);if(it!=std::end(v[value])&&*it==id)v[value].erase(it);', 1),
+    # ---- filter / refine (buildFilters, T.filter, T.filterF, T.refine)
+    (TRIE, 'filter_cell_ranges', 'Filterfilter(' + CELL + ');if(!filter.isValid())return{};', 2),
+    (TRIE, 'filter_pf_empty_query', 'if(!pf.first.size())returngetAllIds();', 1),
+    (TRIE, 'filter_f_empty_query', 'if(!f.size())returngetAllIds();', 1),
+    (TRIE, 'filter_f_offset', 'for(size_ti=offset;i<f.size()+offset;++i){autoid=i-offset;Filterfilter(std::begin(ids_[i][f[id]]),std::end(ids_[i][f[id]]),std::begin(ids_[i].back()),std::end(ids_[i].back()));if(!filter.isValid())return{};', 1),
+    (TRIE, 'filter_apply', 'returnapplyFilters(filters);', 3),
+    (TRIE, 'refine_trivial_cases', 'if(!ids.size()||!pf.first.size()){returnids;}', 1),
+    (TRIE, 'refine_ids_filter', 'filters.emplace_back(std::end(ids),std::end(ids),std::begin(ids),std::end(ids));', 1),
+    # ---- Filter (Filt.advance / step / isValid / getMin / size)
+    (TRIE, 'Filter_advance', 'beginNamedFilter=std::lower_bound(beginNamedFilter,endNamedFilter,value);beginUnnamedFilter=std::lower_bound(beginUnnamedFilter,endUnnamedFilter,value);', 1),
+    (TRIE, 'Filter_stepAdvance', 'if(beginNamedFilter==endNamedFilter)++beginUnnamedFilter;elseif(beginUnnamedFilter==endUnnamedFilter)++beginNamedFilter;else*beginNamedFilter<*beginUnnamedFilter?++beginNamedFilter:++beginUnnamedFilter;', 1),
+    (TRIE, 'Filter_isValid', 'returnbeginUnnamedFilter<endUnnamedFilter||beginNamedFilter<endNamedFilter;', 1),
+    (TRIE, 'Filter_getMin', 'if(beginNamedFilter==endNamedFilter)return*beginUnnamedFilter;if(beginUnnamedFilter==endUnnamedFilter)return*beginNamedFilter;returnstd::min(*beginNamedFilter,*beginUnnamedFilter);', 1),
+    (TRIE, 'Filter_less_by_size', 'return(endNamedFilter-beginNamedFilter)+(endUnnamedFilter-beginUnnamedFilter)<(other.endNamedFilter-other.beginNamedFilter)+(other.endUnnamedFilter-other.beginUnnamedFilter);', 1),
+    # ---- applyFilters (applyCursor: Cur.matchPart / Cur.advPart)
+    (TRIE, 'apply_single_filter', 'if(filters.size()==1){while(filters[0].isValid()){matches.push_back(filters[0].getMin());filters[0].stepAdvance();}returnmatches;}', 1),
+    (TRIE, 'apply_init', 'size_tlastMaxFound=0,counter=1;size_tcurrentMax=filters[0].getMin();while(true){', 1),
+    (TRIE, 'apply_match_part', 'if(counter==filters.size()){matches.push_back(currentMax);filters[0].stepAdvance();if(!filters[0].isValid())break;currentMax=filters[0].getMin();counter=1;lastMaxFound=0;}', 1),
+    (TRIE, 'apply_adv_part', 'filters[counter].advance(currentMax);if(!filters[counter].isValid())break;autocurrentId=filters[counter].getMin();if(currentId>currentMax){currentMax=currentId;lastMaxFound=counter;counter=0;}elseif(++counter==lastMaxFound)++counter;}returnmatches;', 1),
+    # ---- size / getAllIds (sumCells / mergeCells over the smallest factor; the loop bound is read by gen_c20)
+    (TRIE, 'smallest_factor_row', 'ids_[std::min_element(std::begin(F),std::end(F))-std::begin(F)];', 2),
+    (TRIE, 'size_sum', 'size_tretval=toCount[0].size();', 1),
+    (TRIE, 'size_sum_step', 'retval+=toCount[i].size();', 1),
+    (TRIE, 'allids_merge', 'autonewIt=std::copy(std::begin(toMerge[i]),std::end(toMerge[i]),it);std::inplace_merge(std::begin(retval),it,newIt);it=newIt;', 1),
+    (TRIE, 'getF', 'FactorsTrie::getF()const{returnF;}', 1),
+    # ---- FasterTrie (FT.new / insert / erase / filter / size / reconstruct)
+    (FT, 'ctor_buckets', 'keys_[i].resize(F[i]);', 1),
+    (FT, 'insert', 'keys_[pf.first[0]][pf.second[0]].emplace_back(counter_,std::move(pf));returncounter_++;', 1),
+    (FT, 'erase_swap_pop', 'auto&keys=keys_[pf.first[0]][pf.second[0]];for(size_ti=0;i<keys.size();++i){if(id==keys[i].first){std::swap(keys[i],keys.back());keys.pop_back();return;}}', 1),
+    (FT, 'matchPartial', 'for(size_ti=1;i<j&&i<pf.first.size();++i){if(pf.first[i]>=f.size())returntrue;if(f[pf.first[i]]!=pf.second[i])returnfalse;}returntrue;', 1),
+    (FT, 'filter_named_part', 'size_ti=0;for(;i<f.size();++i)for(constauto&[id,pf]:keys_[i][f[i]])if(matchPartial(f,pf,f.size()-i))retval.push_back(id);', 1),
+    (FT, 'filter_rest_part', 'for(;i<keys_.size();++i)for(constauto&keys:keys_[i])for(constauto&id_pf:keys)retval.push_back(id_pf.first);returnretval;', 1),
+    (FT, 'size', 'for(constauto&keysF:keys_)for(constauto&keysV:keysF)retval+=keysV.size();returnretval;', 1),
+    (FT, 'recon_init', 'f=F;for(size_ti=0;i<pf.first.size();++i)f[pf.first[i]]=pf.second[i];', 1),
+    (FT, 'recon_known_value', 'if(f[o]<F[o]){done=true;keysV=&keys[f[o]];}else{', 1),
+    (FT, 'recon_match_test', 'if(f[id]<F[id]&&entrypf.second[q]!=f[id]){match=false;break;}', 1),
+    (FT, 'recon_assign', 'if(match){done=true;for(size_tq=0;q<entrypf.first.size();++q){constautoid=entrypf.first[q];f[id]=entrypf.second[q];}', 1),
+    (FT, 'recon_remove', 'if(remove){entries.emplace_back(std::move(entry));entry=std::move(keysV->back());keysV->pop_back();--k;}else{entries.push_back(entry);}', 1),
+    (FT, 'recon_next_value', 'if(done||++j>=orders_[o+1].size())break;keysV=&keys[orders_[o+1][j]];', 1),
+    # ---- FilterMap (FM.emplace / filter / size / ofTrie / get / all)
+    (FMAP, 'ctor_size_test', 'if(ids_.size()!=items_.size())throwstd::invalid_argument(', 1),
+    (FMAP, 'emplace', 'ids_.insert(pf);items_.emplace_back(std::forward<Args>(args)...);', 1),
+    (FMAP, 'filter_factors', 'Iterablefilter(constFactors&f){returnIterable(ids_.filter(f),items_);}', 1),
+    (FMAP, 'filter_factors_const', 'ConstIterablefilter(constFactors&f)const{returnConstIterable(ids_.filter(f),items_);}', 1),
+    (FMAP, 'filter_offset', 'Iterablefilter(constFactors&f,size_toffset){returnIterable(ids_.filter(f,offset),items_);}', 1),
+    (FMAP, 'filter_offset_const', 'ConstIterablefilter(constFactors&f,size_toffset)const{returnConstIterable(ids_.filter(f,offset),items_);}', 1),
+    (FMAP, 'filter_partial', 'Iterablefilter(constPartialFactors&pf){returnIterable(ids_.filter(pf),items_);}', 1),
+    (FMAP, 'filter_partial_const', 'ConstIterablefilter(constPartialFactors&pf)const{returnConstIterable(ids_.filter(pf),items_);}', 1),
+    (FMAP, 'size_is_item_count', 'size_tsize()const{returnitems_.size();}', 1),
+    (FMAP, 'subscript', 'operator[](size_tid)const{returnitems_[id];}', 1),
+    (FMAP, 'subscript_mut', 'T&operator[](size_tid){returnitems_[id];}', 1),
+    (FMAP, 'begin_end', 'begin(){returnitems_.begin();}', 1),
+    (FMAP, 'begin_end_const', 'begin()const{returnitems_.begin();}', 1),
+    (FMAP, 'end', 'end(){returnitems_.end();}', 1),
+    (FMAP, 'end_const', 'end()const{returnitems_.end();}', 1),
+    (FMAP, 'getTrie', 'getTrie()const{returnids_;}', 1),
+    (FMAP, 'getContainer', 'getContainer()const{returnitems_;}', 1),
+    (FMAP, 'getF', 'FactorsgetF()const{returnids_.getF();}', 1),
+    # ---- IndexMap / IndexMapIterator (AITB.Model.IndexMap: deref / plus / minus / sub / dist, sortIds)
+    (IMAP, 'toContainerId', 'autotoContainerId()const{return*currentId_;}', 1),
+    (IMAP, 'deref', 'auto&operator*(){return(*items_)[toContainerId()];}constauto&operator*()const{return(*items_)[toContainerId()];}', 1),
+    (IMAP, 'arrow', 'autooperator->(){return&(operator*());}autooperator->()const{return&(operator*());}', 2),
+    (IMAP, 'pre_increment', 'auto&operator++(){++currentId_;return*this;}', 1),
+    (IMAP, 'post_increment', 'autooperator++(int){autotmp=*this;++currentId_;returntmp;}', 1),
+    (IMAP, 'pre_decrement', 'autooperator--(){--currentId_;return*this;}', 1),
+    (IMAP, 'post_decrement', 'autooperator--(int){autotmp=*this;--currentId_;returntmp;}', 1),
+    (IMAP, 'plus', 'autoretval=IndexMapIterator(currentId_,*items_);retval.currentId_+=diff;returnretval;', 1),
+    (IMAP, 'minus', 'autoretval=IndexMapIterator(currentId_,*items_);retval.currentId_-=diff;returnretval;', 1),
+    (IMAP, 'plus_eq', 'currentId_+=diff;return*this;', 1),
+    (IMAP, 'minus_eq', 'currentId_-=diff;return*this;', 1),
+    (IMAP, 'difference', 'autooperator-(IndexMapIteratorother)const{returncurrentId_-other.currentId_;}', 1),
+    (IMAP, 'subscript', 'return(*items_)[*(currentId_+diff)];', 2),
+    (IMAP, 'equality', 'returncurrentId_==other.currentId_;', 1),
+    (IMAP, 'sort_by_item', 'std::sort(std::begin(ids_),std::end(ids_),[this](autolhs,autorhs){returnitems_[lhs]<items_[rhs];});', 1),
+    (IMAP, 'begin', 'autobegin(){returniterator(ids_.begin(),items_);}', 1),
+    (IMAP, 'cbegin', 'autocbegin()const{returnconst_iterator(ids_.cbegin(),items_);}', 1),
+    (IMAP, 'end', 'autoend(){returniterator(ids_.end(),items_);}', 1),
+    (IMAP, 'cend', 'autocend()const{returnconst_iterator(ids_.cend(),items_);}', 1),
+    (IMAP, 'const_begin_end', 'autobegin()const{returncbegin();}', 2),
+    (IMAP, 'size_is_id_count', 'autosize()const{returnids_.size();}', 2),
+    # ---- Core.cpp match / merge (matchWalk / matchPF / matchF, mergePF)
+    (CORE, 'match_smaller_bigger', 'if(lhsK.size()>rhsK.size()){std::swap(smallerK,biggerK);std::swap(smallerV,biggerV);}', 1),
+    (CORE, 'match_walk', 'size_ti=0,j=0;while(j<smallerK->size()&&i<biggerK->size()){if((*biggerK)[i]<(*smallerK)[j])++i;elseif((*biggerK)[i]>(*smallerK)[j])++j;else{if((*biggerV)[i]!=(*smallerV)[j])returnfalse;++i;++j;}}returntrue;', 1),
+    (CORE, 'match_factors', 'size_ti=0;for(autok:rhs.first)if(lhs[k]!=rhs.second[i++])returnfalse;returntrue;', 1),
+    (CORE, 'merge_walk', 'while(i<lhs.first.size()&&j<rhs.first.size()){if(lhs.first[i]<rhs.first[j]){retval.first.push_back(lhs.first[i]);retval.second.push_back(lhs.second[i]);++i;}else{retval.first.push_back(rhs.first[j]);retval.second.push_back(rhs.second[j]);if(lhs.first[i]==rhs.first[j])++i;++j;}}', 1),
+    (CORE, 'merge_tails', 'retval.first.insert(std::end(retval.first),std::begin(lhs.first)+i,std::end(lhs.first));retval.second.insert(std::end(retval.second),std::begin(lhs.second)+i,std::end(lhs.second));retval.first.insert(std::end(retval.first),std::begin(rhs.first)+j,std::end(rhs.first));retval.second.insert(std::end(retval.second),std::begin(rhs.second)+j,std::end(rhs.second));', 1),
+    # ---- IndexSkipMap / IndexSkipMapIterator (skipLoop / skipBegin / skipNext / skipWalkGo)
+    (IMAP, 'skip_ctor', 'currentId_(start),currentSkipId_(0),ids_(ids),items_(items){skip();}', 1),
+    (IMAP, 'skip_loop', 'voidskip(){while(currentId_<items_.size()&&currentSkipId_<ids_.size()&&currentId_==ids_[currentSkipId_]){++currentId_;++currentSkipId_;}}', 1),
+    (IMAP, 'skip_increment', 'auto&operator++(){++currentId_;skip();return*this;}', 1),
+    (IMAP, 'skip_deref', 'auto&operator*(){returnitems_[toContainerId()];}constauto&operator*()const{returnitems_[toContainerId()];}', 1),
+    (IMAP, 'skip_toContainerId', 'autotoContainerId()const{returncurrentId_;}', 1),
+    (IMAP, 'skip_equality', '(currentId_==other.currentId_);', 1),
+    (IMAP, 'skip_begin', 'autobegin(){returniterator(0,ids_,items_);}', 1),
+    (IMAP, 'skip_cbegin', 'autocbegin()const{returnconst_iterator(0,ids_,items_);}', 1),
+    (IMAP, 'skip_end', 'autoend(){returniterator(items_.size(),ids_,items_);}', 1),
+    (IMAP, 'skip_cend', 'autocend()const{returnconst_iterator(items_.size(),ids_,items_);}', 1),
+]
+
+
+def gen_c20_sites():
+    texts, raw = {}, {}
+    for rel in (TRIE, FT, FMAP, IMAP, CORE):
+        raw[rel] = E.strip_comments(E.read(rel))
+        texts[rel] = norm(raw[rel])
+    bad, rows = [], []
+    for rel, name, lit, n in SITES:
+        c = texts[rel].count(lit)
+        if c != n:
+            bad.append(f'{rel}:{name} (found {c}, expected {n})')
+        rows.append(f'  ("{rel.split("/")[-1]}", "{name}", {c}, {n})')
+    body = f'/- GENERATED by tools/extract_c20.py — do not edit.  Source sites the C20 model transcribes (file, site, occurrences found, occurrences the model assumes). -/\n' \
+           f'namespace AITB.Gen.C20Sites\n\ndef sites : List (String × String × Nat × Nat) := [\n' + ',\n'.join(rows) + '\n]\n\n' \
+           f'def pinned : Nat := {len(SITES)}\n\nend AITB.Gen.C20Sites\n'
+    E.write_if_changed('C20Sites', body)
+    if bad:
+        raise E.ExtractError('C20: source sites the model transcribes have changed: ' + '; '.join(bad))
+
+
+GENERATORS = [gen_c20, gen_c20_sites]
